@@ -245,6 +245,15 @@ def check_unit(ex, s, u, d, seen, order, sync, limit):
             if polling:
                 end = ('bad', k, pt)
                 break
+    if end and end[0] == 'bad':
+        # the body is processed in order and the refused packet fails the request: what stands
+        # behind it in the same body is not acted on
+        for pt2, allowed2, _ in u['eff'][1][end[1] + 1:]:
+            tag2 = find_tag(allowed2[-1]) if pt2 == 4 else None
+            if tag2 and tag2 in seen:
+                raise V(ex, 'message-dispatched-after-refused-packet', 'type=%d' % end[2],
+                        'session %d: %s stands behind a packet of type %d in the same body but '
+                        'was dispatched' % (s.ord, tag2, end[2]))
     for tag in required:
         if tag not in seen:
             raise V(ex, 'message-not-dispatched',
